@@ -348,6 +348,23 @@ func (e *emitter) confCase(keys []string, all bool) {
 	if len(toks) == 0 {
 		return
 	}
+	// one file in eight repeats some keys with other values further down (overrides appended to a stock file): the last
+	// occurrence counts
+	if e.rng.Intn(8) == 0 {
+		for k := 0; k < 1+e.rng.Intn(3); k++ {
+			key := strings.SplitN(toks[e.rng.Intn(len(toks))], "=", 2)[0]
+			kind := confKinds[key]
+			var text, meant string
+			if kind == "string" {
+				var sv string
+				text, sv = e.stringValue(key)
+				meant = hx([]byte(sv))
+			} else {
+				text, meant = e.intValue(kind)
+			}
+			toks = append(toks, key+"="+hx([]byte(text))+"="+meant)
+		}
+	}
 	// one file in six is long: comment blocks before, between and after the keys (files of 4 KiB .. 80 KiB)
 	if e.rng.Intn(6) == 0 {
 		sizes := []int{300, 2000, 4096, 5000, 9000, 33000, 70000}
